@@ -4,6 +4,7 @@
 package wk
 
 import (
+	"net/url"
 	"regexp"
 	"strings"
 
@@ -91,8 +92,31 @@ func Target(raw []byte) string {
 // Handler serves a world through the simulator.
 func Handler(w *world.World) func(*sim.Request) sim.Plan {
 	return func(rq *sim.Request) sim.Plan {
-		return sim.Respond(w.Serve(rq.Host, Target(rq.Raw)))
+		target := Target(rq.Raw)
+		if strings.HasPrefix(target, "/.well-known/webfinger?") {
+			return sim.Respond(webfinger(w, rq.Host, target))
+		}
+		return sim.Respond(w.Serve(rq.Host, target))
 	}
+}
+
+func webfinger(w *world.World, host, target string) []byte {
+	notFound := []byte("HTTP/1.1 404 Not Found\r\nContent-Type: application/jrd+json\r\n\r\n{}")
+	u, err := url.Parse("https://" + host + target)
+	if err != nil {
+		return notFound
+	}
+	res := strings.TrimPrefix(u.Query().Get("resource"), "acct:")
+	parts := strings.SplitN(res, "@", 2)
+	if len(parts) != 2 {
+		return notFound
+	}
+	for _, n := range w.Nodes {
+		if n.Kind == "actor" && n.Handle != "" && n.Handle == parts[0] && n.Host == parts[1] && n.Host == host {
+			return []byte("HTTP/1.1 200 OK\r\nContent-Type: application/jrd+json; charset=utf-8\r\n\r\n{\"subject\":\"acct:" + res + "\",\"links\":[{\"rel\":\"http://webfinger.net/rel/profile-page\",\"type\":\"text/html\",\"href\":\"https://" + host + "/@" + parts[0] + "\"},{\"rel\":\"self\",\"type\":\"application/activity+json\",\"href\":\"" + n.ID + "\"}]}")
+		}
+	}
+	return notFound
 }
 
 // HarvestAll pages through a container with the given chunk sizes (then 6 at a time), at most max items.
